@@ -190,7 +190,8 @@ impl EncodingVersion for EncodingVersion1 {
         deserializer: &mut XTypesDeserializer<'a, E, Self>,
         alignment: usize,
     ) -> XTypesResult<()> {
-        deserializer.reader.seek_padding(alignment)
+        // MAXALIGN(XCDR1) = 8, as in the serializer
+        deserializer.reader.seek_padding(core::cmp::min(alignment, 8))
     }
 
     fn seek_to_pid<'a, E: EndiannessRead>(
